@@ -504,7 +504,9 @@ pub fn judge_session(
                         continue;
                     }
                     let elapsed_ms = (clock_at_idx[i].saturating_sub(g.clock_at)) / 1_000_000;
-                    let time_up = (elapsed_ms as i64) >= g.movetime_ms.max(0) + 100;
+                    // how promptly a time limit is honoured is not specified beyond "when the time is up":
+                    // a full second of slack, far above the engine's 100 ms timer period
+                    let time_up = (elapsed_ms as i64) >= g.movetime_ms.max(0) + 1000;
                     let depth_small = g.depth.map(|d| d >= 1 && d <= 4).unwrap_or(false);
                     if depth_small {
                         stats.eval("C07:depth-limit-answers");
@@ -605,7 +607,7 @@ pub fn judge_session(
                 Some(g) => cmds[g + 1..].iter().any(|c| matches!(c, Cmd::Stop | Cmd::Go { .. } | Cmd::Position(_) | Cmd::Quit | Cmd::NewGame)) || eof_at.is_some(),
                 None => true,
             };
-            let time_up = gos.last().map(|g| ((clock_at_idx[log.len()].saturating_sub(g.clock_at)) / 1_000_000) as i64 >= g.movetime_ms.max(0) + 100).unwrap_or(false);
+            let time_up = gos.last().map(|g| ((clock_at_idx[log.len()].saturating_sub(g.clock_at)) / 1_000_000) as i64 >= g.movetime_ms.max(0) + 1000).unwrap_or(false);
             if canceller_after || time_up {
                 v.push(Violation::new(owner, "process-ends", "node-cap", format!("the session did not end within the node cap ({}); commands: {:?}", msg, lines)));
             } else {
@@ -851,19 +853,19 @@ fn timing(rng: &mut Rng64, script: &mut Vec<UStep>, heavy_running: bool) {
         7 => script.push(UStep::Tick(3_600_000)),
         8 | 9 => {
             if heavy_running && rng.chance(600) {
-                script.push(UStep::Tick(*rng.pick(&[100u64, 4_100, 1_000_100])));
+                script.push(UStep::Tick(*rng.pick(&[1_200u64, 5_100, 1_001_100])));
             }
             script.push(UStep::WaitBestmove(budget));
         }
         10 | 11 => {
             if heavy_running && rng.chance(600) {
-                script.push(UStep::Tick(*rng.pick(&[100u64, 4_100, 1_000_100])));
+                script.push(UStep::Tick(*rng.pick(&[1_200u64, 5_100, 1_001_100])));
             }
             script.push(UStep::Settle(budget));
         }
         12 => script.push(UStep::NextTimer),
         _ => {
-            script.push(UStep::Tick(*rng.pick(&[100u64, 4_100])));
+            script.push(UStep::Tick(*rng.pick(&[1_200u64, 5_100])));
             script.push(UStep::Settle(budget));
         }
     }
@@ -1113,6 +1115,9 @@ pub fn generate(ctx: &Ctx, prop: &str, rng: &mut Rng64, thorough: bool, index: u
         }
         "C18" => {
             case.rng_constant = Some(0x0000_0000_5eed_5eed);
+            // a table in which the short searches of the new game displace nothing: the
+            // comparison must not depend on how keys happen to be routed
+            case.dims = (8, 1024);
             // game 1
             if rng.chance(500) {
                 s.push(UStep::Line("uci".to_string()));
